@@ -1,5 +1,6 @@
 \* C02 thorough, collections: keys {"", a, b, é}; every tree of depth <= 1 over ALL leaves with <= 3 pairs
 \* (205 leaves), plus every tree of depth <= 2 over 12 chosen leaves; same node kinds as quick.
+\* Every collection is replayed under the 6 key storage forms of Props.tla (KeyForms) with lookup keys separate / from the same buffer / prefix slices of enumerated keys.
 SPECIFICATION Spec
 CONSTANTS
     KeyOrder <- MC_KeyOrder
